@@ -16,7 +16,57 @@ for p in props:
         out.append(s + "\n")
     else:
         out.append(f"### {p['id']} — {p['title']}\n\nnot built yet (see MANIFEST.json not_applicable).\n")
+def clip(t, n):
+    t = " ".join(str(t).split()).replace("|", "/")
+    return t if len(t) <= n else t[:n].rstrip() + "…"
+
+
+def findings_tables():
+    """§8.1 / §8.2 are regenerated from known_findings.jsonl on every assembly, §12 from seeded/*/meta.json"""
+    fixed, opened = [], []
+    for l in open(os.path.join(V, "known_findings.jsonl")):
+        l = l.strip()
+        if l.startswith("fixed:"):
+            fixed.append("* " + clip(l[len("fixed:"):].strip(), 520))
+        elif l.startswith("{"):
+            k = json.loads(l)
+            if k.get("status", "open") == "open":
+                opened.append((k["property"], str(k.get("id", "?")), clip(k.get("what", ""), 330)))
+    t81 = "\n".join(fixed)
+    t82 = "| property | id | what fails |\n|---|---|---|\n" + "\n".join(f"| {a} | {b} | {c} |" for a, b, c in sorted(opened))
+    rows = []
+    for d in sorted(glob.glob(os.path.join(V, "seeded", "*", "meta.json"))):
+        m = json.load(open(d))
+        sid = os.path.basename(os.path.dirname(d))
+        cb = m.get("caught_by")
+        caught = (", ".join(cb) if isinstance(cb, list) else str(cb)) + (" — " + str(m.get("caught_note") or m.get("how")) if (m.get("caught_note") or m.get("how")) else "")
+        rows.append(f"| {sid} | {clip(m.get('summary', ''), 300)} | {clip(m.get('needs_to_manifest', ''), 260)} | {clip(caught, 420)} |")
+    t12 = "| id | change | needs | caught by |\n|----|--------|-------|-----------|\n" + "\n".join(rows)
+    return t81, t82, t12, len(fixed), len(opened), len(rows)
+
+
+def splice(text, start_marker, end_marker, body):
+    """replace what lies between the line starting with start_marker (kept) and the next line starting with end_marker (kept;
+    None = end of text); hand-written paragraphs that follow the generated block carry the marker `<!-- hand -->` and are kept"""
+    i = text.index(start_marker)
+    i = text.index("\n", i) + 1
+    j = len(text) if end_marker is None else text.index(end_marker, i)
+    old = text[i:j]
+    hand = old[old.index("<!-- hand -->"):] if "<!-- hand -->" in old else ""
+    return text[:i] + "\n" + body + "\n\n" + hand + ("" if hand.endswith("\n") or not hand else "\n") + text[j:]
+
+
+t81, t82, t12, nfixed, nopen, nseeded = findings_tables()
 for part in ["60_hooks_trust.md", "80_findings.md", "90_limits_log.md"]:
-    out.append(open(os.path.join(V, "design.src", part)).read())
+    txt = open(os.path.join(V, "design.src", part)).read()
+    if part == "80_findings.md":
+        txt = splice(txt, "### 8.1 Repaired", "### 8.2 Open", t81)
+        txt = splice(txt, "### 8.2 Open", None, t82)
+    if part == "90_limits_log.md":
+        k = txt.index("## 12. Seeded changes")
+        k = txt.index("| id | change | needs | caught by |", k)
+        txt = txt[:k] + t12 + "\n"
+    out.append(txt)
+print("findings: fixed", nfixed, "open", nopen, "seeded", nseeded)
 open(os.path.join(V, "DESIGN.md"), "w").write("\n".join(out))
 print("DESIGN.md", sum(len(x) for x in out), "bytes")
